@@ -1087,6 +1087,94 @@ fn mode_datacodec(_seed: u64, limit: usize) -> Vec<serde_json::Value> {
     fails
 }
 
+
+// ------------------------------------------------------------------ mode: optimizer (C02): before/after the optimiser on compiler-shaped programs
+fn eval_named(p: &Program<Name>) -> Result<String, String> {
+    let db: Program<NamedDeBruijn> = p.clone().try_into().map_err(|e| format!("scope: {e}"))?;
+    let r = run_real(db.term, VARIANTS[0], None, BIG, 200);
+    if let Some(pn) = r.panicked { return Err(format!("panic: {pn}")); }
+    match r.result { Ok(t) => Ok(t.to_pretty().split_whitespace().collect::<Vec<_>>().join(" ")), Err(_) => Err("failure".into()) }
+}
+fn check_optimizer_text(src: &str) -> Option<serde_json::Value> {
+    let Ok(prog) = uplc::parser::program(src) else { return None };
+    let before = eval_named(&prog);
+    if let Err(e) = &before { if e.starts_with("scope") { return None; } }
+    let input = serde_json::json!({"program": src});
+    let opt = std::panic::catch_unwind(std::panic::AssertUnwindSafe(|| uplc::optimize::aiken_optimize_and_intern(prog.clone())));
+    let Ok(opt) = opt else { return Some(fail("optimizer", "the optimiser panicked", input, "an optimised program".into(), "panic".into())) };
+    let after = eval_named(&opt);
+    let same = match (&before, &after) { (Ok(a), Ok(b)) => a == b, (Err(_), Err(_)) => true, _ => false };
+    if same { None } else { Some(fail("optimizer", "the optimised program evaluates differently", input, format!("{before:?}"), format!("{after:?}  [optimised: {}]", opt.to_pretty().split_whitespace().collect::<Vec<_>>().join(" ")))) }
+}
+
+
+/// compiler-shaped programs: typed (Int / Bool) expressions over parameters a, b : Int and c : Bool, built from the
+/// shapes the code generator emits: `let` = [(lam x body) rhs], `if` = (force [(force ifThenElse) c (delay t) (delay e)]),
+/// saturated arithmetic / comparison builtins, `fail` = (error).  Every binder has its own name.
+struct Gen<'a> { rng: &'a mut Rng, next: usize }
+impl Gen<'_> {
+    fn int(&mut self, depth: usize, ints: &Vec<String>, bools: &Vec<String>) -> String {
+        let k = if depth == 0 { self.rng.below(2) } else { self.rng.below(10) };
+        match k {
+            0 => format!("(con integer {})", [0i64, 1, 2, -1, 7][self.rng.below(5) as usize]),
+            1 => ints[self.rng.below(ints.len() as u64) as usize].clone(),
+            2 | 3 => { let op = ["addInteger", "subtractInteger", "multiplyInteger"][self.rng.below(3) as usize];
+                       format!("[(builtin {op}) {} {}]", self.int(depth - 1, ints, bools), self.int(depth - 1, ints, bools)) }
+            4 => { let op = ["divideInteger", "modInteger", "quotientInteger"][self.rng.below(3) as usize];
+                   format!("[(builtin {op}) {} {}]", self.int(depth - 1, ints, bools), self.int(depth - 1, ints, bools)) }
+            5 | 6 => format!("(force [(force (builtin ifThenElse)) {} (delay {}) (delay {})])", self.boolean(depth - 1, ints, bools), self.int(depth - 1, ints, bools), self.int(depth - 1, ints, bools)),
+            7 | 8 => { let x = format!("x{}", self.next); self.next += 1;
+                       let rhs_int = self.rng.below(4) != 0;
+                       let rhs = if rhs_int { self.int(depth - 1, ints, bools) } else { self.boolean(depth - 1, ints, bools) };
+                       let (mut i2, mut b2) = (ints.clone(), bools.clone());
+                       if rhs_int { i2.push(x.clone()) } else { b2.push(x.clone()) }
+                       format!("[(lam {x} {}) {rhs}]", self.int(depth - 1, &i2, &b2)) }
+            _ => "(error)".to_string(),
+        }
+    }
+    fn boolean(&mut self, depth: usize, ints: &Vec<String>, bools: &Vec<String>) -> String {
+        let k = if depth == 0 { self.rng.below(2) } else { self.rng.below(7) };
+        match k {
+            0 => format!("(con bool {})", ["True", "False"][self.rng.below(2) as usize]),
+            1 => bools[self.rng.below(bools.len() as u64) as usize].clone(),
+            2 | 3 => { let op = ["lessThanInteger", "equalsInteger", "lessThanEqualsInteger"][self.rng.below(3) as usize];
+                       format!("[(builtin {op}) {} {}]", self.int(depth - 1, ints, bools), self.int(depth - 1, ints, bools)) }
+            4 | 5 => format!("(force [(force (builtin ifThenElse)) {} (delay {}) (delay {})])", self.boolean(depth - 1, ints, bools), self.boolean(depth - 1, ints, bools), self.boolean(depth - 1, ints, bools)),
+            _ => { let x = format!("x{}", self.next); self.next += 1;
+                   let rhs = self.int(depth - 1, ints, bools);
+                   let mut i2 = ints.clone(); i2.push(x.clone());
+                   format!("[(lam {x} {}) {rhs}]", self.boolean(depth - 1, &i2, bools)) }
+        }
+    }
+}
+fn mode_optimizer(seed: u64, limit: usize) -> Vec<serde_json::Value> {
+    let mut fails = vec![];
+    let mut rng = Rng(0xF1357AEA2E62A9C5 ^ seed.wrapping_mul(0xD6E8FEB86659FD93) | 1);
+    let mut n = 0;
+    let fixed = [
+        // `let x = 1 / d; if c { x } else { 0 }` : a failing binding must fail whichever branch is taken
+        "[(lam x (force [(force (builtin ifThenElse)) c (delay x) (delay (con integer 0))])) [(builtin divideInteger) (con integer 1) b]]",
+        "[(lam x (force [(force (builtin ifThenElse)) c (delay (con integer 0)) (delay x)])) [(builtin divideInteger) a b]]",
+        "[(lam x (force [(force (builtin ifThenElse)) c (delay x) (delay (error))])) [(builtin divideInteger) a b]]",
+    ];
+    let total = 1500;
+    for k in 0..total + fixed.len() {
+        if fails.len() >= limit { break; }
+        let body = if k < fixed.len() { fixed[k].to_string() } else {
+            let depth = 2 + rng.below(3) as usize;
+            let mut g = Gen { rng: &mut rng, next: 0 };
+            g.int(depth, &vec!["a".to_string(), "b".to_string()], &vec!["c".to_string()])
+        };
+        for (a, b, c) in [(0i64, 0i64, "True"), (1, 0, "False"), (-3, 2, "True"), (5, -1, "False")] {
+            n += 1;
+            let src = format!("(program 1.1.0 [(lam a (lam b (lam c {body}))) (con integer {a}) (con integer {b}) (con bool {c})])");
+            if let Some(f) = check_optimizer_text(&src) { fails.push(f); break; }
+        }
+    }
+    println!("BOUNDS mode=optimizer {n} runs: 3 fixed + {total} random compiler-shaped programs (typed Int/Bool expressions of depth 2..4: let, if/else, arithmetic, division, comparisons, fail) x 4 argument tuples; result before vs after aiken_optimize_and_intern; seed {seed}");
+    fails
+}
+
 // ------------------------------------------------------------------ mode: nopanic (C10)
 fn mode_nopanic(seed: u64, limit: usize) -> Vec<serde_json::Value> {
     let mut fails = vec![];
@@ -1287,6 +1375,8 @@ fn main() {
             "builtins" => mode_builtins(seed, limit),
             "nopanic" => mode_nopanic(seed, limit),
             "flat" => mode_flat(seed, limit),
+            "optimizer" => mode_optimizer(seed, limit),
+            "optprobe" => { let src = std::fs::read_to_string("/tmp/optprobe.uplc").unwrap_or_default(); check_optimizer_text(&src).into_iter().collect() }
             "interner" => mode_interner(seed, limit),
             "datacodec" => mode_datacodec(seed, limit),
             "shrinker" => mode_shrinker(seed, limit),
